@@ -54,6 +54,7 @@ class Obligation:
         timeout_ms=20000,
         witness_every=1,
         max_cex=2,
+        split_depth=0,
     ):
         self.name = name
         self.fn = fn
@@ -65,6 +66,7 @@ class Obligation:
         self.timeout_ms = timeout_ms
         self.witness_every = witness_every
         self.max_cex = max_cex
+        self.split_depth = split_depth  # >0: split each case's decision tree at this depth across processes
 
 
 # ----------------------------------------------------------------------------------------------
@@ -171,6 +173,39 @@ def _listed_findings(pid):
     return {e["id"]: e for e in data.get("findings", []) if e.get("property") == pid}
 
 
+def probe_case(ob, params, depth):
+    """Enumerate the feasible decision prefixes of length `depth` (or shorter complete paths) of one case."""
+    ctx = symx.Ctx(timeout_ms=ob.timeout_ms)
+    ctx.presets = params.get("_presets")
+    ctx.cut_depth = depth
+    fn_params = {k: v for k, v in params.items() if not k.startswith("_")}
+    symx.set_ctx(ctx)
+    extras = ob.extras() if ob.extras else ()
+    if ob.use_shims:
+        shim.install(extras)
+    prefixes = []
+    try:
+        while True:
+            ctx.begin()
+            try:
+                ob.fn(**fn_params)
+                prefixes.append([d for d, _ in ctx.prefix])
+            except symx.Cut:
+                prefixes.append([d for d, _ in ctx.prefix])
+            except symx.Infeasible:
+                pass
+            except Exception:
+                prefixes.append([d for d, _ in ctx.prefix])  # let the real exploration report it
+            ctx.end()
+            if not ctx.backtrack():
+                break
+    finally:
+        if ob.use_shims:
+            shim.uninstall()
+        symx.set_ctx(None)
+    return prefixes
+
+
 def explore_case(ob, params, pid, tier):
     """Exhaustively explore one case of one obligation. Returns a stats dict."""
     st = {
@@ -201,6 +236,8 @@ def explore_case(ob, params, pid, tier):
     listed = _listed_findings(pid)
     ctx = symx.Ctx(timeout_ms=ob.timeout_ms)
     ctx.presets = params.get("_presets")
+    if params.get("_prefix"):
+        ctx.prefix = [[bool(d), False] for d in params["_prefix"]]  # explore only the subtree below this prefix
     fn_params = {k: v for k, v in params.items() if not k.startswith("_")}
     symx.set_ctx(ctx)
     extras = ob.extras() if ob.extras else ()
@@ -306,10 +343,12 @@ def _finish_path(ob, params, pid, ctx, out, st, listed):
             try:
                 first = None
                 for attempt in range(5):
-                    if attempt:
-                        r = ctx.check()
-                        if r != z3.sat:
-                            break
+                    r = ctx.check()
+                    if r != z3.sat:
+                        if attempt == 0:
+                            first = {"obligation": ob.name, "params": _jsonable(params), "inputs": {},
+                                     "why": "solver could not re-establish the counterexample model"}
+                        break
                     m = ctx.solver.model()
                     inputs = symx.model_inputs(ctx, m)
                     failing = [k for k, v in parts.items() if z3.is_false(m.eval(v, model_completion=True))]
@@ -459,11 +498,23 @@ def _jsonable(x):
 _OBS = []
 
 
-def _work(item):
-    oi, ci, pid, tier = item
+def _probe(item):
+    oi, ci = item
     ob = _OBS[oi]
     try:
-        return oi, ci, explore_case(ob, ob.cases[ci], pid, tier)
+        return oi, ci, probe_case(ob, ob.cases[ci], ob.split_depth)
+    except BaseException:
+        return oi, ci, [[]]
+
+
+def _work(item):
+    oi, ci, pid, tier = item[:4]
+    ob = _OBS[oi]
+    case = ob.cases[ci]
+    if len(item) > 4 and item[4] is not None:
+        case = dict(case, _prefix=item[4])
+    try:
+        return oi, ci, explore_case(ob, case, pid, tier)
     except BaseException:
         return oi, ci, {"obligation": ob.name, "params": _jsonable(ob.cases[ci]), "error": traceback.format_exc(),
                         "paths": 0, "violations": [], "nonrepro": [], "known_hits": {}, "witness_mismatch": []}
@@ -474,7 +525,19 @@ def run_property(pid, tier, obligations, meta, jobs=None, seed=0):
     global _OBS
     t0 = time.time()
     _OBS = obligations
-    items = [(oi, ci, pid, tier) for oi, ob in enumerate(obligations) for ci in range(len(ob.cases))]
+    items = [(oi, ci, pid, tier, None) for oi, ob in enumerate(obligations) for ci in range(len(ob.cases))
+             if not ob.split_depth]
+    to_probe = [(oi, ci) for oi, ob in enumerate(obligations) for ci in range(len(ob.cases)) if ob.split_depth]
+    njobs = jobs or int(os.environ.get("VERIF_JOBS", "0")) or min(16, os.cpu_count() or 4)
+    if to_probe:
+        if njobs == 1:
+            probed = [_probe(it) for it in to_probe]
+        else:
+            with mp.get_context("fork").Pool(min(njobs, len(to_probe))) as pool:
+                probed = list(pool.imap_unordered(_probe, to_probe, chunksize=1))
+        for oi, ci, prefixes in probed:
+            for pre in prefixes:
+                items.append((oi, ci, pid, tier, pre))
     def _cost(it):  # biggest cases first, so that the pool does not end on a long straggler
         c = obligations[it[0]].cases[it[1]]
         return -sum(v for k, v in c.items() if k in ("n", "m", "k", "N", "F", "R") and isinstance(v, int)) + (
@@ -651,8 +714,9 @@ def replay(pid, obligations, path):
         rec = json.load(f)
     ob = next(o for o in obligations if o.name == rec["obligation"])
     params = None
+    want = {k: v for k, v in rec["params"].items() if k != "_prefix"}
     for c in ob.cases:
-        if _jsonable(c) == rec["params"]:
+        if _jsonable(c) == want:
             params = c
             break
     if params is None:
